@@ -11,9 +11,14 @@ error"; `r.encoded` is the buffer after the in-place modification, `r.encodedLen
 the two returned lengths, `r.written` what `w` received.
 -/
 import WuffsVerif.Proof.Flate.Bounds3
+import WuffsVerif.Proof.Flate.StoredCut3
+import WuffsVerif.Proof.Flate.StoredEnc
 
 namespace WuffsVerif.Props.C16
-open WuffsVerif.Flate WuffsVerif.Flate.Cut
+open WuffsVerif.Flate WuffsVerif.Flate.Cut WuffsVerif.Flate.Spec
+
+/-- byte strings (`Spec.Bytes` and `Cut.Bytes` are both this) -/
+abbrev Bytes := Array UInt8
 
 /-! ## 1. Lengths stay inside the limit and the buffer — for ALL byte strings and limits
 
@@ -54,5 +59,87 @@ theorem writeEndCode_advances (c c' : Cutter) (h : c.writeEndCode = .ok c') (hn 
     8 * c'.bits.index + 8 - c'.bits.nBits = 8 * c.bits.index + 8 - c.bits.nBits + c.endCodeNBits :=
   let h' := writeEndCode_spec c c' h hn hj
   ⟨h'.2.1, h'.2.2.1⟩
+
+/-! ## 2. The spec decoder is a sane specification (stored blocks) -/
+
+/-- Round trip of `Spec.inflate` against a Lean stored-block *encoder*: any number of blocks of at
+most 65535 bytes each, any trailing bytes; the consumed length is exactly the encoder's output. -/
+theorem inflate_stored_roundtrip (ds : List Bytes) (dl post : Bytes)
+    (hds : ∀ d ∈ ds, d.size ≤ 65535) (hdl : dl.size ≤ 65535) :
+    Spec.inflate (encodeStored ds dl ++ post) = some (flat ds ++ dl, (encodeStored ds dl).size) :=
+  Spec.inflate_stored_roundtrip ds dl post hds hdl
+
+/-- non-vacuity / a concrete instance: two blocks "A", "BC" and a trailing byte. -/
+example : Spec.inflate (encodeStored [#[0x41]] #[0x42, 0x43] ++ #[0xFF]) = some (#[0x41, 0x42, 0x43], 13) := by
+  rw [inflate_stored_roundtrip _ _ _ (by simp) (by simp)]
+  rfl
+
+/-- `Spec.inflate` on *any* byte string that is laid out as stored blocks (arbitrary padding bits in
+the header bytes, arbitrary bytes after the final block): `Run s 0 ds` = non-final blocks carrying
+`ds` back to back from byte 0, `BlkAt s q dl true` = the final block. -/
+theorem inflate_stored_layout (s : Bytes) (ds : List Bytes) (dl : Bytes)
+    (hr : Run s 0 ds) (hl : BlkAt s (endOf 0 ds) dl true) :
+    Spec.inflate s = some (flat ds ++ dl, endOf 0 ds + 5 + dl.size) :=
+  Spec.inflate_stored s ds dl hr hl
+
+/-- The two-byte stream that `cutSingleBlock` falls back to decodes to nothing. -/
+theorem inflate_empty_fixed_block : Spec.inflate #[3, 0] = some (#[], 2) := Spec.inflate_0300
+
+/-! ## 3. THE property
+
+Full statement (`cut_prefix`), for every valid DEFLATE stream:
+
+-- OPEN: theorem cut_prefix (w : Bool) (s : Bytes) (out : Bytes) (n : Nat) (limit : Int) (r : CutResult)
+--     (hs : Spec.inflate s = some (out, n)) (h : Cut.Cut w s limit = .ok r) :
+--     Spec.inflate (r.encoded.extract 0 r.encodedLen) = some (out.extract 0 r.decodedLen, r.encodedLen) ∧
+--     r.decodedLen ≤ out.size ∧
+--     ((s.size : Int) ≤ limit → s.size ≤ 2 ^ 30 → r.decodedLen = out.size) ∧
+--     (w = true → r.written = out.extract 0 r.decodedLen)
+-- (needs, for Huffman blocks: `lookup_eq_slow`, `construct_canonical`, the agreement of
+--  `doDynamicHuffman`'s header parser with `Spec.dynamicHeader`, and locality of `Spec.inflate`
+--  under the end-code/final-bit surgery; not closed in this effort.  Note the `s.size ≤ 2^30`
+--  premise: `Cut` clamps `maxEncodedLen` to 1 GiB, so for longer streams "limit ≥ len ⇒ whole" is
+--  false of the code as written.)
+
+What is proved is the statement for every stream that consists of stored blocks — this covers
+`doStored` (shortening + LEN/NLEN rewrite), the final-bit patching of the previous block in `cut`,
+the `errInternalNoProgress` un-read, and the `cutSingleBlock` fallback (both of its outcomes). -/
+
+/-- **cut_prefix for streams of stored blocks** (`_partial`: Huffman blocks are missing).
+`hT` excludes outputs of 2 GiB or more (where Go's `int32` `decodedLen` would overflow). -/
+theorem cut_prefix_stored_partial (w : Bool) (s : Bytes) (ds : List Bytes) (dl : Bytes) (limit : Int)
+    (r : CutResult)
+    (hr : Run s 0 ds) (hl : BlkAt s (endOf 0 ds) dl true)
+    (hT : (flat ds ++ dl).size < 2147483648)
+    (h : Cut.Cut w s limit = .ok r) :
+    Spec.inflate (r.encoded.extract 0 r.encodedLen) =
+        some ((flat ds ++ dl).extract 0 r.decodedLen, r.encodedLen) ∧
+    r.decodedLen ≤ (flat ds ++ dl).size ∧
+    ((s.size : Int) ≤ limit → s.size ≤ 2 ^ 30 → r.decodedLen = (flat ds ++ dl).size) ∧
+    (w = true → r.written = (flat ds ++ dl).extract 0 r.decodedLen) :=
+  Cut.Cut_stored w s ds dl limit r hr hl hT h
+
+/-- The same, phrased with the encoder: cutting `encodeStored ds dl ++ post` yields a stream that
+the spec decoder maps to a prefix of `flat ds ++ dl` — where `Spec.inflate` of the *original* is
+`flat ds ++ dl` by `inflate_stored_roundtrip`. -/
+theorem cut_prefix_encodeStored_partial (w : Bool) (ds : List Bytes) (dl post : Bytes) (limit : Int)
+    (r : CutResult)
+    (hds : ∀ d ∈ ds, d.size ≤ 65535) (hdl : dl.size ≤ 65535)
+    (hT : (flat ds ++ dl).size < 2147483648)
+    (h : Cut.Cut w (encodeStored ds dl ++ post) limit = .ok r) :
+    Spec.inflate (r.encoded.extract 0 r.encodedLen) =
+        some ((flat ds ++ dl).extract 0 r.decodedLen, r.encodedLen) ∧
+    r.decodedLen ≤ (flat ds ++ dl).size := by
+  have hrun := Spec.encodeStored_run #[] post ds dl hds hdl
+  simp only [Array.empty_append, Array.size_empty] at hrun
+  have := Cut.Cut_stored w _ ds dl limit r hrun.1 hrun.2.1 hT h
+  exact ⟨this.1, this.2.1⟩
+
+set_option maxRecDepth 100000 in
+/-- non-vacuity: the hypothesis `Cut … = .ok r` of the theorem above is satisfiable
+(stored "AB" cut at 6 bytes gives `eLen = 6`, `dLen = 1`). -/
+example : (match Cut.Cut true (encodeStored [] #[0x41, 0x42] ++ #[]) 6 with
+    | .ok r => r.encodedLen == 6 && r.decodedLen == 1 && r.written == #[0x41] | .error _ => false) = true := by
+  decide +kernel
 
 end WuffsVerif.Props.C16
